@@ -16,7 +16,8 @@ REQUIRED = (["vsop_pos", "geometric_vsop_pos", "apparent_vsop_pos", "orbital_ele
             + ["Earth.geometric_heliocentric_position_j2000"])
 THEOREMS = ["C07_series_evaluator", "C07_horner_is_direct_sum", "C07_vsop_longitude_range",
             "C07_fk5_correction", "C07_fk5_size", "C07_aberration", "C07_corrected_longitude_range",
-            "C07_table_constants", "C07_earth_j2000_rate", "C07_orbital_elements"]
+            "C07_table_constants", "C07_earth_j2000_rate", "C07_orbital_elements",
+            "C07_series_derivative", "C07_longitude_increasing", "C07_envelope_partial"]
 PROOF_TIMEOUT = {"quick": 2000, "thorough": 3000}
 EXHAUSTIVE = False
 MANIFEST = {
@@ -25,9 +26,9 @@ MANIFEST = {
              "(sum_i t^i sum_k A cos(B+Ct))/1e8 for longitude (reduced to [0,360)), latitude and radius (induction over "
              "the generated loops); FK5 / aberration corrections of geometric/apparent_vsop_pos have the documented form "
              "and size and the corrected longitude is again in [0,360); mean-longitude rate of every planet's series equals "
-             "the element table's to 1e-6 and n^2 a^3 = k^2 to 0.1 % / 1 % on the extracted tables.  Physical envelopes, "
-             "monotone longitude, Kepler agreement, continuity and binary64 summation agreement: searched, not proved."),
-    "technique": "induction over generated fix loops (any table shape) + pyrun symbolic evaluation + lra/interval on extracted constants + bit-exact correspondence + dense property search",
+             "the element table's to 1e-6 and n^2 a^3 = k^2 to 0.1 % / 1 % on the extracted tables.  Longitude strictly increasing over years -2000..6000 for all 8 planets (derivative + amplitude sum of the extracted tables below the secular rate, kernel-checked in integer arithmetic; mean value theorem).  Physical envelopes (only plain amplitude-sum bounds proved), "
+             "rate within 3 %, Kepler agreement, continuity and binary64 summation agreement: searched, not proved."),
+    "technique": "induction over generated fix loops (any table shape) + pyrun symbolic evaluation + lra/interval on extracted constants + Coquelicot derivatives and MVT + reflection: tables instantiated at a decimal carrier and bounded in Z by vm_compute + bit-exact correspondence + dense property search",
     "design_ref": "8/C07",
 }
 EXPLANATION = ("The generated vsop_pos (nested loops, Horner in t, 1e-8 scaling) is proved, for tables of ANY shape, to return "
@@ -47,7 +48,9 @@ CLAUSES = {
     "orbital_elements = cubic polynomials of the table rows in T, argument of perihelion = perihelion - node": "proved [ideal, symbolic tables; the module constant JDE2000 = 2451545 is a hypothesis in quick, discharged by evaluation in thorough]",
     "|latitude| <= inclination + 0.05 deg": "unproved (searched): global bound of a 1000-term trigonometric series over 6000 years",
     "radius within perihelion/aphelion distance of the mean orbit, 1 % slack": "unproved (searched): same reason",
-    "longitude only increases, daily rate within 3 % of the Keplerian extremes": "unproved (searched): same reason",
+    "longitude only increases (all 8 planets: Mercury, Venus, Earth, Mars, Jupiter, Saturn, Uranus, Neptune; years -2000..6000)": "proved [ideal: C07_series_derivative (term-by-term derivative by Coquelicot, amplitude bound, mean value theorem, any tables) + C07_longitude_increasing (per planet the kernel reads the regenerated VSOP87_L table as exact decimals and checks in integer arithmetic that the amplitude sum of all non-secular terms at |t| = 4 millennia is below the secular rate: ratios 0.64 Mercury, 0.31 Mars, 0.23 Saturn, 0.14 Jupiter, 0.12 Uranus, 0.05 Earth, 0.03 Neptune, 0.02 Venus): the unreduced longitude direct_sum/1e8 that vsop_pos reduces to [0,360) is strictly increasing in the epoch]; binary64: searched",
+    "daily rate within 3 % of the Keplerian extremes": "unproved (searched): needs a sharp bound of the derivative, the amplitude sum only gives positivity",
+    "amplitude envelopes of latitude and radius (partial: plain amplitude sums over years -2000..6000, weaker than the property's inclination + 0.05 deg / 1 % slack)": "proved [ideal, C07_envelope_partial: |B| <= nB/1e23 rad, |R - constant term| <= nR/1e23 AU with nB, nR computed by the kernel from the regenerated tables; on the current tree: Mercury 10.78 deg / 0.0997 AU, Venus 4.86 / 0.0066, Earth 0.0006 / 0.0220, Mars 3.28 / 0.2089, Jupiter 2.00 / 0.3521, Saturn 4.28 / 1.0537, Uranus 1.48 / 1.0589, Neptune 2.46 / 0.3275]",
     "agreement with Kepler's equation on the library's mean elements (0.1 deg Mercury-Mars, 1/2.5/1.5/1 deg Jupiter/Saturn/Uranus/Neptune, 1 % distance)": "unproved (searched)",
     "continuity at 1-second steps": "unproved (searched)",
     "binary64: evaluator vs exactly rounded direct sum, 1e-11 rad (B, R: everywhere; L: 1e-11 rad + 128 ulp of the unreduced angle, which reaches 1e5 rad where 1 ulp = 1.5e-11 rad)": "unproved (searched): rounding is outside the ideal instance",
@@ -56,7 +59,8 @@ CLAUSES = {
 
 def proof_files(tier):
     fs = ["C07_defs.v", "C07_lib.v", "C07_angle.v", "C07_sec_a.v", "C07_sec_b.v", "C07_sec_c.v", "C07_sec.v",
-          "C07_series.v", "C07_corr.v", "C07_const.v", "C07_elem.v"]
+          "C07_series.v", "C07_corr.v", "C07_const.v", "C07_elem.v",
+          "C07_mono.v", "C07_dec.v", "C07_mono_code.v"] + ["C07_mono_%s.v" % p.lower() for p in PLANETS]
     if tier == "thorough":
         fs.append("C07_jde2000.v")      # evaluates Epoch(2000, 1, 1.5) in real arithmetic: minutes
     return fs + ["C07.v"]
